@@ -437,13 +437,17 @@ def hoist_if(repo: Repo, chk: Check) -> None:
         return [t.replace("$op", op) for t in ts]
 
     def same_block2(site: Site):
+        # the loop may run over the uses or over the launch ops themselves (`use.operation for use in ..`)
         return has_forall(site, inst(["$v.operation.parent_block() is $op.parent_block()", "$v.operation.parent_block() == $op.parent_block()",
-                                      "$v.operation.parent is $op.parent"]), dom_ok)
+                                      "$v.operation.parent is $op.parent", "$v.parent_block() is $op.parent_block()", "$v.parent_block() == $op.parent_block()",
+                                      "$v.parent is $op.parent"]), dom_ok)
 
     def not_before2(site: Site):
         return has_forall(site, inst(["$b.get_operation_index($v.operation) >= $c.get_operation_index($op)",
                                       "$b.get_operation_index($op) <= $c.get_operation_index($v.operation)",
-                                      "not $v.operation.is_before_in_block($op)"]), dom_ok)
+                                      "not $v.operation.is_before_in_block($op)",
+                                      "$b.get_operation_index($v) >= $c.get_operation_index($op)", "$b.get_operation_index($op) <= $c.get_operation_index($v)",
+                                      "not $v.is_before_in_block($op)"]), dom_ok)
 
     require_guards(
         chk, "C01.hoist-if", f, sites,
